@@ -68,8 +68,14 @@ namespace GeographicLib {
           / atan2(        ty - tx , 1 +         tx * ty);
       else {
         tx = 1/tx; ty = 1/ty;
-        r = atan2(base::_fm1 * (ty - tx), base::_e2m1 + tx * ty)
-          / atan2(        ty - tx ,   1   + tx * ty);
+        if (tx == ty) {
+          // The reciprocals of two nearly equal tangents can coincide; use
+          // the limiting form to avoid 0/0.
+          tx *= tx;
+          r = base::_fm1 * (1 + tx) / (base::_e2m1 + tx);
+        } else
+          r = atan2(base::_fm1 * (ty - tx), base::_e2m1 + tx * ty)
+            / atan2(        ty - tx ,   1   + tx * ty);
       }
     }
     return r;
